@@ -403,12 +403,23 @@ func (c *Ctx) applyContract(st *State, fr *Frame, fc *FuncContract, tgt callTarg
 		st.assume(eq(rts[0], env2.eval(*fc.Defines)))
 		st.assume(not(eq(rts[0], tZero)))
 	}
+	npc := len(st.pc)
 	for _, cl := range fc.Clauses {
 		if cl.Kind != "ensures" {
 			continue
 		}
 		env2.assumeMode = true
 		st.assume(env2.evalBool(cl.E))
+	}
+	// vacuity guard: the assumed postcondition must not contradict what is known at the call site
+	site := fmt.Sprintf("%s@%d", tgt.key, int(pos))
+	if !c.callCovered[site] && len(st.pc) > npc {
+		c.callCovered[site] = true
+		c.callCovers = append(c.callCovers, &CallCover{
+			Callee: tgt.key, Where: c.posStr(pos),
+			Before: &Query{Obl: &Obl{Fn: c.Key, Kind: "cover", Name: c.Key + "/cover-before-call"}, PC: append([]string(nil), st.pc[:npc]...), Goal: "false", NDecl: len(c.decls), Ctx: c},
+			After:  &Query{Obl: &Obl{Fn: c.Key, Kind: "cover", Name: c.Key + "/cover-after-call"}, PC: append([]string(nil), st.pc...), Goal: "false", NDecl: len(c.decls), Ctx: c},
+		})
 	}
 	return res
 }
@@ -514,6 +525,22 @@ func (c *Ctx) havocLoc(st *State, old *State, fr *Frame, env *Env, m ModLoc, tgt
 			c.heapHavoc(st, mi.KeyVal, mi.ValSort)
 		case "alloc":
 			c.havocKey(st, aliveKey)
+		case "chan":
+			// typestate of one channel (its token count / value / closed flag)
+			x := env.eval(e.Args[0])
+			oenv := *env
+			oenv.cur = old
+			x = oenv.eval(e.Args[0])
+			for _, k := range []string{chLen, chVal} {
+				h := c.heapCur(st, k, arrSort(SInt))
+				st.heap[k] = sto(h, x, c.fresh("mod_"+k, SInt))
+			}
+			h := c.heapCur(st, chClosed, arrSort(SBool))
+			st.heap[chClosed] = sto(h, x, c.fresh("mod_"+chClosed, SBool))
+		case "chans":
+			c.havocKey(st, chLen)
+			c.havocKey(st, chVal)
+			c.havocKey(st, chClosed)
 		case "object":
 			// every field of the object an interface value (or pointer) refers to
 			x := env.eval(e.Args[0])
